@@ -726,7 +726,7 @@ PROPS["C18"] = dict(
                "argument values per kind tuple), of CallNative dispatch and of one re-entrant script call.",
     level_note="Trusted: Kani/CBMC; kinds enumerated; message text outside.",
     design_ref="DESIGN.md §3 C18",
-    cap=dict(quick=300, thorough=1200),
+    cap=dict(quick=240, thorough=600), mem_gb=18, jobs=3,
     harnesses=[
         _c18("c18_wrapper2_int_int", b="(i64,f64) from (Integer,Integer)", dispatches=0),
         _c18("c18_wrapper2_real_int", b="(i64,f64) from (Real,Integer)", dispatches=0),
@@ -810,7 +810,7 @@ PROPS["C03"] = dict(
                "on three program shapes (endless loop, terminating program, native re-entering an endless callback).",
     level_note="Trusted: Kani/CBMC; the dispatch counter hook; small budgets.",
     design_ref="DESIGN.md §3 C03",
-    cap=dict(quick=420, thorough=1800), mem_gb=18, jobs=3,
+    cap=dict(quick=240, thorough=600), mem_gb=18, jobs=3,
     harnesses=[
         _vm("c03", "c03_endless_loop", dispatches=6, bounds="[Goto 0] under budget 1..=5"),
         _vm("c03", "c03_sufficient_budget", dispatches=4, bounds="[int x][SetGlobal 0][Exit] under budget 4..=7"),
@@ -839,7 +839,7 @@ PROPS["C06"] = dict(
                "values, enumerated frame offsets) and of the closure label function over a bounded index space.",
     level_note="Trusted: Kani/CBMC; shapes enumerated; compiler not covered.",
     design_ref="DESIGN.md §3 C06",
-    cap=dict(quick=420, thorough=1800), mem_gb=18, jobs=3,
+    cap=dict(quick=240, thorough=600), mem_gb=18, jobs=3,
     harnesses=[
         _vm("c06", "c06_capture_off0_idx0", "thorough", dispatches=3, bounds="capture local 0 at frame offset 0", objects=True),
         _vm("c06", "c06_capture_off0_idx1", "thorough", dispatches=3, bounds="capture local 1 at frame offset 0", objects=True),
@@ -870,7 +870,7 @@ PROPS["C15"] = dict(
                "instruction kinds at call depth 0/1 on a small VM. The compiler half (which index a card gets) is outside.",
     level_note="Trusted: Kani/CBMC; hand-built trace maps.",
     design_ref="DESIGN.md §3 C15",
-    cap=dict(quick=600, thorough=1800), mem_gb=22, jobs=2,
+    cap=dict(quick=300, thorough=600), mem_gb=22, jobs=2,
     harnesses=[
         _vm("c15", "c15_missing_native_depth0", dispatches=2, bounds="missing native at depth 0"),
         _vm("c15", "c15_missing_native_depth1", "thorough", dispatches=2, bounds="missing native below one call frame"),
@@ -897,7 +897,7 @@ PROPS["C17"] = dict(
                "fresh VM for any earlier collection threshold, and repeated runs do not consume call frames.",
     level_note="Trusted: Kani/CBMC; state components enumerated in harness/src/c17.rs.",
     design_ref="DESIGN.md §3 C17",
-    cap=dict(quick=420, thorough=1800), mem_gb=18, jobs=3,
+    cap=dict(quick=240, thorough=600), mem_gb=18, jobs=3,
     harnesses=[
         _vm("c17", "c17_clear_equals_fresh", dispatches=0, bounds="clear() vs fresh VM, any earlier threshold"),
         _vm("c17", "c17_run_three_times_ok", dispatches=4, bounds="[int x][Pop][Exit] run three times, call stack capacity 2"),
